@@ -1452,7 +1452,7 @@ pub fn run(ctx: &Ctx) -> i32 {
     "distinct_nontrivial" => non2xx.load(Ordering::Relaxed),
     "rule" => "header-value / query-string family first (see header_family), then the echo family (see echo_family: every request location whose content the server may quote back x names of 1/2/3/4-byte characters in every byte phase x total lengths swept around the powers of two up to the body limit, same oracle; in the quick tier the dense length sweep is applied to the locations that quote 8 probe names back and a sparse one elsewhere); then space = states {no index, index (2 committed docs), index + 1 queued doc} x distinct well-framed HTTP/1.1 requests: (A) methods {GET,POST,PUT,DELETE} x paths {11 routes, every single-character deletion / substitution / insertion of every route keeping the leading '/', '/'} x content types {application/json, application/x-ndjson, none, text/plain} x bodies {no body, Content-Length 0, '{', the valid body of the base route}; (B) every route with its method x content types x {non-UTF-8 bytes, max_body+1 bytes, every single-edit neighbour (delete / replace / insert over the replacement alphabet) of the route's valid bodies (one per route in the quick tier, two in the thorough tier)}, plus /search requests known to make the core error or panic. Each request runs on a live server in exactly the stated state (the server is rebuilt after any request that may have changed it) and is followed by GET /healthz. A case is non-trivial when it is answered with a non-2xx status (a failure path ran).",
     "requests_per_state" => space.reqs.len(),
-    "states" => states.iter().map(|s| s.name()).collect::<Vec<_>>(),
+    "server_states" => states.iter().map(|s| s.name()).collect::<Vec<_>>(),
     "space_breakdown" => space.counts,
     "path_edit_alphabet" => if quick { "x" } else { "x / A" },
     "body_replacement_alphabet" => if quick { "\" } 0 0xff" } else { "\" { } [ ] : , 0 a <space> \\n \\ 0x00 0xff" },
